@@ -331,6 +331,22 @@ func (app *App) txDeliverer() txDeliverer {
 
 		handler := txCtx.Router.Handler(tx.Type)
 
+		// the proposer of a block decides its content, so a delivered transaction may never have
+		// passed a mempool check: signatures, fee and static fields are validated here as well
+		// (before the gas reading, so that the gas charged to the transaction is unchanged)
+		if valid, err := handler.Validate(txCtx, *tx); err != nil || !valid {
+			app.Context.deliver.DiscardTxSession()
+			logString := "invalid transaction"
+			if err != nil {
+				logString = err.Error()
+			}
+			app.logger.Debug("Deliver Tx invalid: ", logString)
+			return ResponseDeliverTx{
+				Code: CodeNotOK.uint32(),
+				Log:  logString,
+			}
+		}
+
 		gas := txCtx.State.ConsumedGas()
 
 		ok, response := handler.ProcessDeliver(txCtx, tx.RawTx)
